@@ -75,12 +75,19 @@ Definition w_str : schema :=
      [DConst "S" (CvStr (String "a" (String (ascii_of_nat 34) (String "b" EmptyString))));
       DMsg "A" false [] [fbool "b" 1]]].
 
+(* [py-attr-collision]  enum Mode {..}  message A { uint8 _get_mode = 1; Mode mode = 2 }:
+   the getter the renderer adds for the enum field `mode` is called _get_mode *)
+Definition w_attr : schema :=
+  [mkFile "m" "m" [] no_opts
+     [DEnum "Mode" 2 [("MODE_A", 0%N); ("MODE_B", 1%N)];
+      DMsg "A" false [] [mkField "_get_mode" 1 (TBase (BUint 8)); mkField "mode" 2 (TRef (mkRef RkEnum [] 0 [] "Mode"))]]].
+
 Definition inside_pre (s : schema) : bool :=
   wf s && forallb (fun i => pre LC s i && pre LPy s i && pre LGo s i) (seq 0 (length s)).
 
 Lemma witnesses_inside_pre :
   forallb inside_pre [w_helper; w_helper_alias; w_derived; w_import; w_nested; w_twohop; w_go_unused;
-                      w_empty_struct; w_align; w_empty_enum; w_empty_enum_unused; w_str] = true.
+                      w_empty_struct; w_align; w_empty_enum; w_empty_enum_unused; w_str; w_attr] = true.
 Proof. vm_compute. reflexivity. Qed.
 
 Definition tu_unique (s : schema) (i : nat) (t : target) : bool :=
@@ -100,6 +107,10 @@ Lemma nested_import_refuted :
   (* C flattens every name into one name space: the same schemas are fine there *)
   dbu w_nested 0 TgH = true /\ dbu w_nested 0 TgC = true /\ dbu w_twohop 0 TgH = true.
 Proof. vm_compute. repeat split; reflexivity. Qed.
+Lemma attr_collision_refuted :
+  g_py_attrs w_attr 0 = false /\
+  forallb (fun fd => nodup_str (py_class_attrs fd)) (flat_file (getf w_attr 0)) = false.
+Proof. vm_compute. split; reflexivity. Qed.
 Lemma go_unused_import_refuted : go_imports_used_b (render_items w_go_unused 0 TgGo []) = false.
 Proof. vm_compute. reflexivity. Qed.
 Lemma empty_struct_refuted : structs_nonempty_b (render_items w_empty_struct 0 TgH []) = false.
@@ -138,7 +149,7 @@ Definition ok_schema : schema :=
 Definition all_targets : list target := [TgH; TgC; TgHO; TgCO; TgPy; TgGo].
 Definition all_guards (s : schema) (i : nat) : bool :=
   forallb (fun L => pre L s i && g_derived L s i && g_qualify L s i && g_import L s i) [LC; LPy; LGo] &&
-  g_helper s i && g_go_used s i && g_struct_nonempty s i && g_align s i.
+  g_helper s i && g_go_used s i && g_struct_nonempty s i && g_align s i && g_py_attrs s i.
 
 Lemma ok_schema_ok :
   wf ok_schema = true /\ all_guards ok_schema 0 = true /\
